@@ -303,6 +303,7 @@ pub async fn run_session(target_is_client: bool, script: &[(Inj, bool)]) -> Opti
                         fails.push((format!("rec:{cls}:delivered-unauthenticated"), inj.text()));
                     }
                 }
+                if *target.conn.remote_addr.read() != genuine { fails.push((format!("rec:{cls}:destination-moved-to-the-source-of-a-datagram"), inj.text())); }
                 let after = target.letter();
                 if after != before && !auth.iter().any(|(ct, _)| *ct == 21 || *ct == 22) {
                     fails.push((format!("rec:{cls}:state-{before}-to-{after}-unauthenticated"), inj.text()));
@@ -699,6 +700,12 @@ pub fn run(args: &Args) {
         let mut scripts = vec![];
         for (fc, kinds) in [(false, vec![2u8, 11, 12, 14, 200, 20]), (true, vec![16u8, 200, 20])] {
             for k in kinds { for ct in [23u8, 21, 22, 20] { scripts.push(Script { ce: 'o', se: 'n', rules: vec![Rule { from_client: fc, typ: k, act: Act::PreInject(ct) }] }); } }
+        }
+        // the same kinds of clear-text record from a THIRD source address (handshake phase × foreign address): as good as absent —
+        // in particular the transport keeps sending to its peer (oracle rec:handshake-phase:third-party-record-disturbed-the-handshake)
+        for (fc, k, ct) in [(false, 2u8, 23u8), (false, 14, 23), (false, 200, 23), (false, 200, 21), (false, 200, 22), (false, 20, 23), (false, 20, 21),
+                            (true, 16, 23), (true, 200, 23), (true, 200, 21), (true, 20, 22)] {
+            scripts.push(Script { ce: 'o', se: 'n', rules: vec![Rule { from_client: fc, typ: k, act: Act::PreInject3(ct) }] });
         }
         // close() at every stage of the handshake (before keys; between key derivation and Connected, where the alert
         // must take the context's sequence number and not reuse the Finished record's): nonce oracle over all sealed records
